@@ -855,5 +855,12 @@ def run(chk):
     chk.guard("R12.9", "key-kinds", check_key_kinds, chk, F)
     chk.guard("R12.10", "bare-standardness", check_other_top_level, chk, F)
     chk.guard("R12.12", "entry-params", check_entry_params, chk, F)
+    # validate_non_top_level applies the per-node switches while walking the tree with Miniscript::iter / iter_pk
+    # (get_nth_child): a child the walk skips is a fragment no switch looks at (rules shared with C20)
+    from . import c20
+    al2 = RuleAlias(chk, {"R20.3": "R12.13", "R20.4": "R12.13"}, "the walk the per-node validation switches and the duplicate-key "
+                    "test ride on")
+    chk.guard("R12.13", "visitors", c20.check_visitors, al2, F)
+    chk.guard("R12.13", "tree-shape", c20.check_tree_shape, al2, F)
     from . import limits as _limits
     chk.guard("R12.11", "timelock-composition", _limits.check_timelock_composition, chk, F, "R12.11")
